@@ -108,6 +108,8 @@ def check_deck(deck, seed, flags=(), lattice=(), n_points=60, want=('C01', 'C08'
         for sid, kinds in entries.items():
             if sid not in flagged:
                 bc_fail('entry-on-a-surface-that-is-not-flagged', f'entry {kinds} on {sid}')
+    if 'C10' in want and f.compositions:
+        _check_compositions(deck, f, fail)
     gc = {}
     for name, ids in f.geomcomp:
         for i in ids:
@@ -208,3 +210,54 @@ def _same_locus(f, t4_id, deck, mcnp_id, n=40):
             continue
         agree += 1 if (v < 0) == neg else -1
     return abs(agree) >= n * 0.9
+
+
+_SYMBOLS = ('H HE LI BE B C N O F NE NA MG AL SI P S CL AR K CA SC TI V CR MN FE CO NI CU ZN GA GE AS SE BR KR RB SR Y '
+            'ZR NB MO TC RU RH PD AG CD IN SN SB TE I XE CS BA LA CE PR ND PM SM EU GD TB DY HO ER TM YB LU HF TA W RE '
+            'OS IR PT AU HG TL PB BI PO AT RN FR RA AC TH PA U NP PU AM CM BK CF ES FM MD NO LR RF DB SG BH HS MT DS RG '
+            'CN NH FL MC LV TS OG').split()
+
+
+def _nuclide(zaid):
+    z = zaid.split('.')[0]
+    a = int(z[-3:])
+    return _SYMBOLS[int(z[:-3]) - 1] + (str(a) if a else '-NAT')
+
+
+def _check_compositions(deck, f, fail):
+    comps = {c['name']: c for c in f.compositions}
+    if 'm0' not in comps:
+        fail('C10', 'void-composition-missing', 'no m0 composition')
+    for name, c in comps.items():
+        if name == 'm0':
+            continue
+        m = re.fullmatch(r'm(\d+)_(.+)', name)
+        if not m or int(m.group(1)) not in deck.materials:
+            fail('C10', 'composition-of-an-unknown-material', name)
+            continue
+        card = deck.materials[int(m.group(1))]
+        rho = float(m.group(2).lower().replace('d', 'e'))
+        want_names = [_nuclide(z) for z, _ in card]
+        got_names = [n for n, _ in c['entries']]
+        if got_names != want_names:
+            fail('C10', 'nuclides-differ-from-the-material-card', f'{name}: {got_names} vs card {want_names}')
+            continue
+        fr = [fv for _, fv in card]
+        positive = fr[0] > 0
+        vals = [v for _, v in c['entries']]
+        if rho < 0:
+            if c['kind'] != 'DENSITY' or abs(c['density'] - abs(rho)) > 1e-12:
+                fail('C10', 'mass-density-not-written-as-DENSITY', f'{name}: {c["kind"]} {c.get("density")}')
+            if (c.get('flag') == 'NB_ATOM') != positive:
+                fail('C10', 'atom-fraction-flag', f'{name}: flag {c.get("flag")!r}, card fractions positive={positive}')
+            if any(abs(v - abs(x)) > 1e-12 * max(1, abs(x)) for v, x in zip(vals, fr)):
+                fail('C10', 'fractions-are-not-the-absolute-card-values', f'{name}: {vals} vs {fr}')
+        else:
+            if c['kind'] != 'POINT_WISE':
+                fail('C10', 'atom-density-not-written-as-POINT_WISE', f'{name}: {c["kind"]}')
+            elif positive:
+                tot = sum(fr)
+                if abs(sum(vals) - rho) > 1e-9 * rho or any(abs(v * tot - x * rho) > 1e-9 * rho * tot
+                                                           for v, x in zip(vals, fr)):
+                    fail('C10', 'concentrations-not-proportional-or-not-summing-to-the-density',
+                         f'{name}: {vals} vs fractions {fr}, density {rho}')
